@@ -107,14 +107,29 @@ func (u *Unit) lookupName(name string, env *Env, sc *specCtx) (Value, bool) {
 				}
 			}
 		}
-		// live variables of the function (latest declaration wins)
+		// live variables: those of the function being executed now (inlined callee or the unit's own function) win over
+		// same-named variables of other inlined functions; among them the latest declaration wins
 		var best types.Object
+		bestRank := -1
+		rank := func(obj types.Object) int {
+			if len(u.curFn) > 0 {
+				d := u.curFn[len(u.curFn)-1].Decl
+				if obj.Pos() >= d.Pos() && obj.Pos() <= d.End() {
+					return 2
+				}
+			}
+			if u.FI != nil && obj.Pos() >= u.FI.Decl.Pos() && obj.Pos() <= u.FI.Decl.End() {
+				return 1
+			}
+			return 0
+		}
 		for obj := range env.vars {
 			if obj.Name() != name {
 				continue
 			}
-			if best == nil || obj.Pos() > best.Pos() {
-				best = obj
+			r := rank(obj)
+			if best == nil || r > bestRank || (r == bestRank && obj.Pos() > best.Pos()) {
+				best, bestRank = obj, r
 			}
 		}
 		if best != nil {
@@ -701,6 +716,24 @@ func (u *Unit) specCall(x *ast.CallExpr, env *Env, sc *specCtx) Value {
 	case "rtype":
 		v := u.sv(x.Args[0], env, sc)
 		return Value{u.rtype(v.Term), intT}
+	case "asptr":
+		// asptr(v, TypeName): the boxed pointer v as a *TypeName
+		v := u.sv(x.Args[0], env, sc)
+		tn := x.Args[1].(*ast.Ident).Name
+		var named types.Type
+		for _, p := range u.Prog.Pkgs {
+			if o := p.Types.Scope().Lookup(tn); o != nil {
+				if _, ok := o.(*types.TypeName); ok {
+					named = o.Type()
+					break
+				}
+			}
+		}
+		if named == nil || v.Sort != SVal {
+			unsup("asptr: unknown type or non-interface value")
+		}
+		_, un := u.boxFn(SRef)
+		return Value{App(un, SRef, v.Term), types.NewPointer(named)}
 	case "as", "isa", "impl":
 		// as(x, TypeName): x unboxed as the named struct type; isa(x, TypeName): dynamic type test; impl(x, IfaceName)
 		v := u.sv(x.Args[0], env, sc)
